@@ -935,6 +935,206 @@ def field_chunk(case):
     return rec.result()
 
 
+# ----------------------------------------------------------------------------------------------
+# worker 5: expressions that cannot take arrays (Piecewise, scalar-only user functions): the cell-by-cell
+# fallback of ScalarField.from_expression / FieldCollection.from_scalar_expressions
+# ----------------------------------------------------------------------------------------------
+
+PW_GRIDS = {
+    # no cell centre lies within 1e-3 of a break point (1, 2)
+    "line": ["cart", [[0, 3]], [6], [False]],  # centres 0.25 ... 2.75
+    "plane": ["cart", [[0, 3], [0, 3]], [4, 3], [False, False]],  # x: 0.375 ... 2.625, y: 0.5, 1.5, 2.5
+    "disk": ["polar", [0, 3], 4],  # r: 0.375 ... 2.625
+}
+PW_VALUES = ["0", "1", "2", "0.5", "{v} - 1", "3 - {v}", "{v}**2", "sin({v})"]  # int constants, a float constant, ramps, ...
+PW_VALUES3 = ["0", "1", "0.5", "{v} - 1", "3 - {v}"]
+
+
+def _pw_kind(val):
+    return "int" if val in ("0", "1", "2") else ("float" if val == "0.5" else "expr")
+
+
+def u_first(x):
+    """scalar-only user functions (an `if` on the argument): integer constant in the first / last / middle branch"""
+    if x < 1:
+        return 0
+    return x - 1
+
+
+def u_last(x):
+    if x < 2:
+        return x / 2
+    return 1
+
+
+def u_mid(x):
+    if x < 1:
+        return x
+    if x < 2:
+        return 1
+    return 3 - x
+
+
+def u_float(x):
+    return 0.0 if x < 1 else x - 1.0
+
+
+def u_bool(x):
+    if x < 1:
+        return False
+    return x - 0.5
+
+
+def u_two(x, y):
+    if x < y:
+        return 1
+    return x - y + 0.25
+
+
+PW_USER = {"u_first": u_first, "u_last": u_last, "u_mid": u_mid, "u_float": u_float, "u_bool": u_bool, "u_two": u_two}
+
+
+def piecewise_programs(var, other=None):
+    """the complete list [(shape, text)] of the programs of this part in the variable `var`"""
+    v = lambda t: t.format(v=var)  # noqa: E731
+    out = []
+    for a in PW_VALUES:
+        for b in PW_VALUES:
+            if a == b:
+                continue
+            ka, kb = _pw_kind(a), _pw_kind(b)
+            # the first cell (var < 1) takes the first branch ...
+            out.append((f"Piecewise(({ka}, ·<1), ({kb}, True))", f"Piecewise(({v(a)}, {var} < 1), ({v(b)}, True))"))
+            # ... or the default branch
+            out.append((f"Piecewise(({ka}, ·>1), ({kb}, True))", f"Piecewise(({v(a)}, {var} > 1), ({v(b)}, True))"))
+    for a in PW_VALUES3:
+        for b in PW_VALUES3:
+            for c in PW_VALUES3:
+                if len({a, b, c}) < 3:
+                    continue
+                out.append((f"Piecewise(({_pw_kind(a)}, ·<1), ({_pw_kind(b)}, ·<2), ({_pw_kind(c)}, True))",
+                            f"Piecewise(({v(a)}, {var} < 1), ({v(b)}, {var} < 2), ({v(c)}, True))"))
+    base = f"Piecewise((0, {var} < 1), ({var} - 1, True))"
+    out += [("Piecewise*expr+float", f"{base}*sin({var}) + 0.5"), ("int*Piecewise", f"2*{base}"), ("Piecewise+expr", f"{base} + {var}"),
+            ("Piecewise**2", f"{base}**2"), ("sin(Piecewise)", f"sin({base})"),
+            ("Piecewise in Piecewise", f"Piecewise((0, {var} < 1), (Piecewise((1, {var} < 2), (3 - {var}, True)), True))")]
+    out += [("comparison", f"{var} > 1"), ("comparison", f"{var} < 1"), ("comparison", f"{var} <= 2"), ("sign", f"sign({var} - 1)"),
+            ("floor", f"floor({var})"), ("floor", f"floor({var})/2"), ("Max", f"Max({var}, 1)"), ("Min", f"Min({var}, 1.5)")]
+    for name in ("u_first", "u_last", "u_mid", "u_float", "u_bool"):
+        out += [(f"{name}(·)", f"{name}({var})"), (f"{name}(·)*float", f"{name}({var})*0.5"), (f"{name}(·)+expr", f"{name}({var}) + {var}")]
+    if other:
+        out += [("u_two(·,·)", f"u_two({var}, {other})"), ("u_two(·,·)", f"u_two({other}, {var})"),
+                ("Piecewise((int, ·<·), (expr, True))", f"Piecewise((0, {var} < {other}), ({var}*{other}, True))"),
+                ("Piecewise((expr, ·<·), (int, True))", f"Piecewise(({var} - {other}, {var} > {other}), (2, True))"),
+                ("Piecewise((int, ·<1), (expr, True))", f"Piecewise((1, {var} < 1), ({var}*{other}, True))")]
+    return out
+
+
+def _pw_namespace():
+    import math
+
+    def piecewise(*pairs):
+        for val, cond in pairs:
+            if cond:
+                return val
+        raise ValueError("no branch of Piecewise applies")
+
+    ns = {"Piecewise": piecewise, "sin": math.sin, "floor": math.floor, "Max": max, "Min": min, "True": True,
+          "sign": lambda t: (t > 0) - (t < 0), "__builtins__": {}}
+    ns.update(PW_USER)
+    return ns
+
+
+def piecewise_chunk(case):
+    """case: {"grid", "var", "other", "shape", "exprs": [[text, pos]...], "routes": [...]}"""
+    import numpy as np
+    from pde import FieldCollection, ScalarField, VectorField
+
+    rec = Rec(case)
+    gname, shape = case["grid"], case["shape"]
+    spec = PW_GRIDS[gname]
+    geo = geometry(spec)
+    grid = make_grid(spec)
+    gshape = tuple(geo["shape"])
+    axes = {"line": ["x"], "plane": ["x", "y"], "disk": ["r"]}[gname]
+    routes = case.get("routes") or ["scalar", "collection", "vector"]
+    ns0 = _pw_namespace()
+
+    def expected(text):
+        code = compile(text, "<c11-piecewise>", "eval")
+        ref = np.full(gshape, np.nan)
+        for idx in np.ndindex(*gshape):
+            c = [geo["centres"][ax][i] for ax, i in enumerate(idx)]
+            if any(abs(x - bp) < O.NEAR for x in c for bp in (1.0, 2.0)) or (len(c) == 2 and abs(c[0] - c[1]) < O.NEAR):
+                rec.skipped += 1
+                continue
+            ns = dict(ns0)
+            ns.update(dict(zip(axes, c)))
+            if gname == "disk":
+                ns["radius"] = c[0]
+            ref[idx] = float(eval(code, ns))  # noqa: S307 - the text is generated by this module
+        return ref
+
+    def refused(route, text, exc):
+        name, msg = type(exc).__name__, str(exc)
+        if route == "vector" and name == "ValueError" and "truth value of an array" in msg:
+            return "VectorField.from_expression has no cell-by-cell fallback (ValueError: truth value of an array)"
+        if name == "TypeError" and ("Max(" in text or "Min(" in text):
+            return "Max/Min are printed as the builtin max/min, which numpy's namespace shadows (TypeError)"
+        return None
+
+    for text, pos in case["exprs"]:
+        uf = {k: f for k, f in PW_USER.items() if _has(text, k)} or None
+        ref = expected(text)
+        tol = 1e-12 * (1.0 + np.abs(np.nan_to_num(ref)))  # a handful of flops per cell
+        for route in routes:
+            replay = {"grid": gname, "var": case.get("var"), "shape": shape, "exprs": [[text, pos]], "routes": [route]}
+            sigroute = f"fallback-field/{gname}/{route}"
+            filler = " + ".join(axes)
+            try:
+                rec.n += 1
+                if route == "scalar":
+                    fields = [(text, ScalarField.from_expression(grid, text, user_funcs=uf))]
+                elif route == "collection":
+                    texts = [filler, filler]
+                    texts[pos % 2] = text
+                    fc = FieldCollection.from_scalar_expressions(grid, texts, user_funcs=uf)
+                    fields = [(t, f) for t, f in zip(texts, fc)]
+                else:
+                    dim = geo["dim"]
+                    texts = [filler] * dim
+                    texts[pos % dim] = text
+                    vf = VectorField.from_expression(grid, texts, user_funcs=uf)
+                    fields = [(t, vf[i]) for i, t in enumerate(texts)]
+            except Exception as exc:  # noqa: BLE001
+                why = refused(route, text, exc)
+                if why:
+                    rec.refs[why] += 1
+                else:
+                    rec.bad(sigroute, shape, f"raises {type(exc).__name__}", text, f"{type(exc).__name__}: {str(exc)[:200]}", replay,
+                            "piecewise_chunk")
+                continue
+            for t, f in fields:
+                r = ref if t == text else expected(t)
+                rec.compared += 1
+                if f.data.dtype != np.float64:
+                    rec.bad(sigroute, shape, "field is not of dtype float", text, f"`{t}`: dtype {f.data.dtype}", replay, "piecewise_chunk")
+                    break
+                mask = ~np.isnan(r)
+                diff = np.abs(f.data - np.nan_to_num(r))
+                if f.data.shape != gshape or not np.all((diff <= tol) | ~mask):
+                    idx = tuple(int(i) for i in np.argwhere(~((diff <= tol) | ~mask))[0]) if f.data.shape == gshape else ()
+                    rec.bad(sigroute, shape, CLAUSE_V if t == text else "a neighbouring field changed", text,
+                            f"`{t}` at cell {idx} (centre {[geo['centres'][ax][i] for ax, i in enumerate(idx)]}): got "
+                            f"{f.data[idx] if idx else f.data.shape!r} expected {r[idx] if idx else gshape!r}; whole field "
+                            f"{f.data.ravel().tolist()[:8]}; grid {grid_name(spec)}", replay, "piecewise_chunk")
+                    break
+            else:
+                rec.keys.append(f"{gname}|{route}|{text}")
+                rec.outs[f"{route} on {gname}"] += 1
+    return rec.result()
+
+
 def number_chunk(case):
     """parse_number on constant expressions"""
     import numpy as np
@@ -1155,6 +1355,22 @@ def main(run):
                     i += 1
                 fcases.append({"grid": gname, "kind": kind, "shape": shp, "exprs": items})
     explore("field_chunk", fcases, "I", "fields[I]", chunksize=2)
+    # 5b. expressions that cannot take arrays: Piecewise (integer constant in the first / last / middle branch, first cell in
+    # the first or in the default branch), comparisons, sign/floor, scalar-only user functions -> cell-by-cell fallback
+    pcases = []
+    for gname, var, other in (("line", "x", None), ("plane", "x", "y"), ("plane", "y", "x"), ("disk", "r", None), ("disk", "radius", None)):
+        progs = piecewise_programs(var, other)
+        if gname == "disk":
+            # polar grid (axis name and its alias): the 3-branch family, the user functions and the non-Piecewise programs
+            progs = [pr for pr in progs if ", True))" not in pr[1] or pr[1].count("<") == 2 or "u_" in pr[1]]
+        groups_p = collections.OrderedDict()
+        for i, (shp, txt) in enumerate(progs):
+            groups_p.setdefault(shp, []).append([txt, i + seed])
+        routes = ["scalar", "collection"] if gname != "plane" else ["scalar"] + (["collection"] if var == "x" else [])
+        for shp, items in groups_p.items():
+            r = routes + (["vector"] if gname == "plane" and var == "x" and shp.count("·<") == 2 else [])
+            pcases.append({"grid": gname, "var": var, "other": other, "shape": shp, "exprs": items, "routes": r})
+    explore("piecewise_chunk", pcases, "I", "fallback-fields[I]", chunksize=1)
     catoms = ["2", "0.5", "(-1.5)", "k", "pi"]
     ncases = [{"shape": shp, "exprs": texts} for shp, texts in _by_shape(catoms + O.level1(catoms)).items()]
     explore("number_chunk", ncases, "I", "parse_number[I]")
@@ -1187,7 +1403,10 @@ def main(run):
         "triple over {a,b} (these through call / numpy arrays / numba / differentiate only); each through call / numpy / numba source / single_arg / "
         "arrays / broadcasting / differentiate / derivatives at 3 seeded generic + 4 special points; one really compiled function per "
         "shape class (outer x inner operators); plus alias / repl / explicit-symbol variants, tensor expressions, field constructors "
-        "on 5 grids, evaluate(), parse_number over all depth<=1 expressions; distinct = expressions (per part) with >= 1 "
+        "on 5 grids, evaluate(), parse_number over all depth<=1 expressions; the cell-by-cell fallback of ScalarField.from_expression / "
+        "FieldCollection.from_scalar_expressions on every 2-/3-branch Piecewise over {0,1,2,0.5,ramps} (first cell in the first or "
+        "the default branch), comparisons, sign/floor and scalar-only user functions on a 1-d, a 2-d and a polar grid (float dtype, "
+        "every cell); distinct = expressions (per part) with >= 1 "
         "well-conditioned point compared"
     )
 
